@@ -48,7 +48,16 @@ class Interp:
             if not z3.is_true(g):
                 f = st.frame.funcqual if getattr(st, "frame", None) else ""
                 # a conjunction is discharged conjunct by conjunct (smaller, more stable queries)
-                parts = [p for p in goal.children() if not z3.is_true(z3.simplify(p))] if z3.is_expr(goal) and z3.is_and(goal) else [goal]
+                def conjuncts(g_, depth=0):
+                    # nested conjunctions that contain a quantified conjunct are split as well (forall-introduction works on a
+                    # quantifier prefix only)
+                    if z3.is_and(g_) and (depth == 0 or any(z3.is_quantifier(c_) for c_ in g_.children())):
+                        out_ = []
+                        for c_ in g_.children():
+                            out_.extend(conjuncts(c_, depth + 1))
+                        return out_
+                    return [g_]
+                parts = [p for p in conjuncts(goal) if not z3.is_true(z3.simplify(p))] if z3.is_expr(goal) and z3.is_and(goal) else [goal]
                 if not (1 < len(parts) <= 12):
                     parts = [goal]
                 for pi, part in enumerate(parts):
@@ -384,14 +393,73 @@ class Interp:
 
     def s_If(self, node, st):
         res = []
+        c0 = self.specs.get(st.frame.funcqual) if self.specs is not None else None
+        merge = c0 is not None and c0.opts.get("merge_branches") and not self.bounded
         for s, c in self.eval(node.test, st):
             if isinstance(c, Exc):
                 res.append((s, ("exc", c)))
                 continue
+            npc = len(s.pc)
+            env_before, heap_before = dict(s.env), dict(s.heap)
+            sub = []
             for s2, b in self.branch(s, lib.truthy(self, s, c)):
                 self.narrow(node.test, s2, b)
-                res.extend(self.exec_block(node.body if b else node.orelse, s2))
+                sub.extend(self.exec_block(node.body if b else node.orelse, s2))
+            if merge:
+                sub = self.merge_outcomes(sub, npc, env_before, heap_before)
+            res.extend(sub)
         return res
+
+    def merge_outcomes(self, outs, npc, env_before, heap_before):
+        """Join of the two normal outcomes of an if/else whose branches only (re)bind numeric locals (and allocate fresh
+        objects): path condition  common /\ (b => extra1) /\ (not b => extra2)  for a fresh Boolean b, locals ite(b, v1, v2).
+        Every concrete execution follows one of the two paths, so it satisfies the joined state with b chosen accordingly; the
+        join describes nothing else.  Anything that does not fit (writes to existing objects, non-numeric differences, ghost
+        differences, exceptional outcomes) is left as separate paths."""
+        normal = [(s, ctl) for s, ctl in outs if ctl is None]
+        if len(normal) != 2:
+            return outs
+        (s1, _), (s2, _) = normal
+        if len(s1.pc) < npc or len(s2.pc) < npc or not all(a is b for a, b in zip(s1.pc[:npc], s2.pc[:npc])):
+            return outs
+        # existing heap objects must be untouched in both; fresh ones are kept side by side (ids are unique)
+        for k, v in heap_before.items():
+            if s1.heap.get(k) is not v or s2.heap.get(k) is not v:
+                return outs
+        for k in set(s1.heap) & set(s2.heap):
+            if s1.heap[k] is not s2.heap[k]:
+                return outs
+        if repr(s1.ghost) != repr(s2.ghost):
+            return outs
+        if set(s1.env) != set(s2.env):
+            return outs
+        b = z3.Bool(fresh_name("join"))
+        env = {}
+        for k in s1.env:
+            v1, v2 = s1.env[k], s2.env[k]
+            if v1 is v2:
+                env[k] = v1
+            elif isinstance(v1, Num) and isinstance(v2, Num) and v1.kind == v2.kind:
+                env[k] = v1 if v1.t.eq(v2.t) else Num(z3.If(b, v1.t, v2.t), v1.kind)
+            elif isinstance(v1, Num) and isinstance(v2, Num) and {v1.kind, v2.kind} == {"int", "real"}:
+                t1 = z3.ToReal(v1.t) if v1.kind == "int" else v1.t
+                t2 = z3.ToReal(v2.t) if v2.kind == "int" else v2.t
+                env[k] = Num(z3.If(b, t1, t2), "real")
+            elif type(v1) is type(v2) and repr(v1) == repr(v2) and not isinstance(v1, Num):
+                env[k] = v1
+            else:
+                return outs
+        j = s1
+        e1, e2 = s1.pc[npc:], s2.pc[npc:]
+        j.pc = list(s1.pc[:npc])
+        for f in e1:
+            j.pc.append(z3.Implies(b, f))
+        for f in e2:
+            j.pc.append(z3.Implies(z3.Not(b), f))
+        j.env = env
+        j.heap = dict(s1.heap)
+        j.heap.update(s2.heap)
+        return [(s_, ctl) for s_, ctl in outs if ctl is not None] + [(j, None)]
 
     def narrow(self, test, st, truth):
         """refine `x is None` / `x is not None` tests on optional locals"""
